@@ -72,7 +72,7 @@ def selector_spec(draw):
     n = draw(st.integers(0, 3))
     clauses = []
     for _ in range(n):
-        kind = draw(st.sampled_from(["n", "n", "s", "name", "in", "flag"]))
+        kind = draw(st.sampled_from(["n", "n", "s", "name", "in", "flag", "src"]))
         if kind == "n":
             clauses.append(("n", draw(st.sampled_from(list(OPS))), draw(st.integers(0, 9))))
         elif kind == "s":
@@ -81,6 +81,12 @@ def selector_spec(draw):
             clauses.append(("name", "==", draw(st.sampled_from(["c16/a", "c16/b", "c16/c"]))))
         elif kind == "in":
             clauses.append(("n", "in", draw(st.lists(st.integers(0, 9), min_size=1, max_size=4))))
+        elif kind == "src":
+            # a field every record has and that is often unset (None): membership and (in)equality with None as the value
+            op = draw(st.sampled_from(["in", "not in", "==", "!="]))
+            lit = draw(st.sampled_from([["orig", "root"], ["root", "admin"], [None, "x"], ["orig"]])) if "in" in op else \
+                draw(st.sampled_from(["orig", "root"]))
+            clauses.append(("_source", op, lit))
         else:
             clauses.append(("flag", "==", draw(st.booleans())))
     joins = [draw(st.sampled_from(["and", "or"])) for _ in range(max(0, n - 1))]
@@ -110,11 +116,13 @@ def selector_ref(sel, rec):
         f, op, lit = c
         if f == "name":
             return rec._desc.name == lit
-        if f not in [n for _, n in rec._desc.get_field_tuples()]:
+        if f != "_source" and f not in [n for _, n in rec._desc.get_field_tuples()]:
             return False
         v = getattr(rec, f)
         if op == "in":
             return v in lit
+        if op == "not in":
+            return v not in lit
         if v is None:
             return {"==": False, "!=": True}.get(op, False)
         return OPS[op](v, lit)
